@@ -44,6 +44,9 @@ type vgOp struct {
 	// SignerFails: the signing device refuses this request (the call is expected to report it; what is judged are the
 	// updates produced before and after).
 	SignerFails bool `json:"signer_fails,omitempty"`
+	// FailCount requests in a row are refused (default 1); FailTemporary: with an error that calls itself temporary.
+	FailCount     int  `json:"fail_count,omitempty"`
+	FailTemporary bool `json:"fail_temporary,omitempty"`
 }
 
 type varsignEngine struct{ tz, race bool }
@@ -204,6 +207,18 @@ func (e *varsignEngine) Gen(seed uint64, tier string, run int) *Trace {
 		}
 	}
 	t, _ := genInstant(r)
+	if zr := r.Fork("dst"); zr.Chance(1, 5) && len(c.Zone) > 0 && c.Zone[0] != '+' && c.Zone[0] != '-' && c.Zone != "UTC" {
+		// a clock change of the zone (the hour that does not exist, the hour that happens twice) and the seconds around it
+		if loc, err := loadZone(c.Zone); err == nil {
+			if trs := zoneTransitions(loc, 2000+zr.Intn(50)); len(trs) > 0 {
+				tr := Pick(zr, trs)
+				d := Pick(zr, []int{-3601, -3600, -1801, -1800, -1, 0, 1, 59, 1799, 1800, 1801, 3599, 3600, 3601, zr.Intn(7400) - 3700, zr.Intn(7400) - 3700})
+				if cand := tr.Add(time.Duration(d) * time.Second); cand.After(bubbleEpoch) && cand.Before(simMaxInstant) {
+					t = cand
+				}
+			}
+		}
+	}
 	c.Instant = t.Format(time.RFC3339)
 	n := 1
 	if r.Chance(1, 3) {
@@ -233,8 +248,10 @@ func (e *varsignEngine) Gen(seed uint64, tier string, run int) *Trace {
 		if c.Clients > 1 {
 			op.C = i % c.Clients
 		}
-		if n > 1 && i < n-1 && r.Chance(1, 6) {
+		if (n > 1 && i < n-1 && r.Chance(1, 6)) || r.Chance(1, 25) {
 			op.SignerFails = true
+			op.FailCount = Pick(r, []int{1, 1, 2, 3, 4, 8})
+			op.FailTemporary = r.Bool()
 		}
 		if e.race && r.Chance(1, 2) {
 			// large payloads: the passes over the payload (marshalling, hashing) are long enough to overlap
@@ -424,7 +441,10 @@ func vgProduce(op vgOp, plane *Plane) *vgProduct {
 	p.payload = op.Val.Bytes()
 	payload := p.payload
 	pk := Pool()[op.Key%poolAll]
-	signer := &SimSigner{inner: pk.Key, p: plane, Delay: time.Duration(op.DelayMs) * time.Millisecond, FailNext: op.SignerFails}
+	signer := &SimSigner{inner: pk.Key, p: plane, Delay: time.Duration(op.DelayMs) * time.Millisecond, Temporary: op.FailTemporary}
+	if op.SignerFails {
+		signer.FailNext = max(1, op.FailCount)
+	}
 	p.at = time.Now().UTC()
 	p.zname, p.zoff = time.Now().Zone()
 	func() {
@@ -506,10 +526,14 @@ func vgJudge(c vgCfg, op vgOp, i int, p *vgProduct, x *X) (interface{ Bytes() []
 		return nil, nil
 	}
 	if op.SignerFails {
-		// what a failing signer has to lead to is another property's business; this run goes on with the next request
-		x.Logf("op %d: the signing device refused; the call returned err=%v", i, err)
+		// what a failing signer has to lead to is another property's business; this run goes on with the next request.
+		// But an update that the library hands out as good is judged like any other.
+		x.Logf("op %d: the signing device refused %d request(s) (temporary=%v); the call returned err=%v", i, max(1, op.FailCount), op.FailTemporary, err)
 		x.Probe("signer_refused_then_next_request")
-		return nil, nil
+		if err != nil || out == nil {
+			return nil, nil
+		}
+		x.Probe("update_produced_although_signer_refused")
 	}
 	if err != nil {
 		fail("varsign.succeeds", "signing with a healthy key failed: %v", err)
@@ -626,4 +650,28 @@ func vgJudge(c vgCfg, op vgOp, i int, p *vgProduct, x *X) (interface{ Bytes() []
 	}
 	x.State(h64(c.Zone, at.Unix()/86400))
 	return keep, append([]byte(nil), out...)
+}
+
+// zoneTransitions lists the instants of a year at which the zone's UTC offset changes, to the second.
+func zoneTransitions(loc *time.Location, year int) []time.Time {
+	var out []time.Time
+	off := func(t time.Time) int { _, o := t.In(loc).Zone(); return o }
+	day := time.Date(year, 1, 1, 0, 0, 0, 0, time.UTC)
+	for d := 0; d < 366; d++ {
+		a, b := day.AddDate(0, 0, d), day.AddDate(0, 0, d+1)
+		if off(a) == off(b) {
+			continue
+		}
+		lo, hi := a.Unix(), b.Unix() // off(lo) != off(hi); find the first second with the new offset
+		for hi-lo > 1 {
+			mid := (lo + hi) / 2
+			if off(time.Unix(mid, 0)) == off(a) {
+				lo = mid
+			} else {
+				hi = mid
+			}
+		}
+		out = append(out, time.Unix(hi, 0).UTC())
+	}
+	return out
 }
